@@ -141,7 +141,17 @@ impl Scenario for Vesting {
         for k in 0..5 {
             v.push(VAct::Penalty(k));
         }
-        for d in [1, 720, 1440, 2880, 181 * DAY] {
+        let mut steps = vec![1, 720, 1440, 2880, 181 * DAY];
+        // exactly onto the first outstanding vesting epoch (not vested yet: vesting needs epoch < now)
+        // and one past it
+        if let Some(first) = s.model.iter().find(|(e, x)| **e >= s.now && **x > 0).map(|(e, _)| *e) {
+            for d in [first - s.now, first - s.now + 1] {
+                if d > 0 && !steps.contains(&d) {
+                    steps.push(d);
+                }
+            }
+        }
+        for d in steps {
             v.push(VAct::Advance(d));
         }
         v
@@ -504,6 +514,10 @@ impl Scenario for Withdrawals {
                     if quota_left.is_some() {
                         let nu = &mu + &got.amount_withdrawn;
                         m.used = nu.atto().to_string();
+                        let (_, i1) = Self::info(vm, w.m);
+                        if i1.beneficiary_term.used_quota != nu {
+                            viol = Some(format!("used quota recorded as {} after this withdrawal, the tally of what the beneficiary was paid is {nu}", i1.beneficiary_term.used_quota));
+                        }
                     }
                     let delta = vm.balance(ben) - &ben_bal0;
                     if delta != want && who != ben {
